@@ -164,6 +164,48 @@ theorem T_C14_scale_grid (cells : List (List Nat)) (p : List V3) (ci : Nat) (k :
 example : C15.cellNbrs ⟨C15.hexKind, [[0, 1, 2, 3, 4, 5, 6, 7], [4, 5, 6, 7, 8, 9, 10, 11]], 12⟩ 0
     = [none, some 1, none, none, none, none] := by decide +kernel
 
+/-! ### histories of `GridBase.update` (no memory of earlier reads) -/
+
+/-- Whatever sequence of reads and `grid.update(i, position)` calls came before, a read reports for every
+    cell exactly what a grid built freshly on the current points reports: the value depends on the shape
+    now, not on the history of moves. -/
+theorem T_C14_history (g : C15.Grid) (p : List V3) (ops : List HOp) :
+    (runHist g p (ops ++ [HOp.read])).getLast? = some (cellQualities g (finalPts p ops)) := by
+  unfold finalPts
+  induction ops generalizing p with
+  | nil => simp [runHist]
+  | cons o os ih =>
+    cases o with
+    | read =>
+      have h := ih p
+      simp only [List.cons_append, runHist, List.foldl_cons, stepPts]
+      rw [List.getLast?_cons_of_ne_nil ?_] <;> first | exact h | skip
+      · intro hnil; rw [hnil] at h; simp at h
+    | update i v =>
+      simpa only [List.cons_append, runHist, List.foldl_cons, stepPts] using ih (p.set i v)
+
+/-- … and also what a fresh grid on the rigidly moved current points reports (hexahedral grids) -/
+theorem T_C14_history_rigid (cells : List (List Nat)) (p : List V3) (ops : List HOp)
+    (hg : GridOk ⟨C15.hexKind, cells, p.length⟩ p 8) (w : Rat) (a t : V3) (hN : w * w + V3.dot a a ≠ 0) :
+    (runHist ⟨C15.hexKind, cells, p.length⟩ p (ops ++ [HOp.read])).getLast? =
+      some (cellQualities ⟨C15.hexKind, cells, p.length⟩ ((finalPts p ops).map (rigid w a t))) := by
+  rw [T_C14_history]
+  congr 1
+  unfold cellQualities
+  apply List.map_congr_left
+  intro ci hci
+  have hlen := finalPts_length p ops
+  have hg' : GridOk ⟨C15.hexKind, cells, (finalPts p ops).length⟩ (finalPts p ops) 8 := by
+    refine ⟨hg.1, fun c hc => ⟨(hg.2 c hc).1, fun i hi => ?_⟩⟩
+    rw [hlen]; exact (hg.2 c hc).2 i hi
+  have h := T_C14_rigid_grid cells (finalPts p ops) ci (List.mem_range.mp hci) hg' w a t hN
+  rw [hlen] at h
+  rw [h]
+
+/-- non-vacuity: a history that moves a point of the lower of two stacked cubes and reads in between -/
+example : finalPts [⟨0, 0, 0⟩, ⟨1, 0, 0⟩] [HOp.read, HOp.update 0 ⟨1 / 4, 0, 0⟩, HOp.read, HOp.update 1 ⟨2, 0, 0⟩]
+    = [⟨1 / 4, 0, 0⟩, ⟨2, 0, 0⟩] := by decide +kernel
+
 /-! ### rotational renumbering of a planar convex quadrilateral -/
 
 /-- For a quadrilateral in any plane `o + x·u + y·v` whose four corner turns have the same sign (convex),
